@@ -6,6 +6,7 @@
 //! terminators, '>' at line start opens a record), the generator's own knowledge of raggedness,
 //! and the input records for the write -> read laws.
 
+mod defs;
 mod indexio;
 mod paths;
 mod reuse;
@@ -1402,6 +1403,41 @@ fn main() {
             },
         );
         ctx.add_distinct((fa_t.len() * 2) as u64, (fa_t.len() * 8) as u64);
+
+        // ---- foreign definition lines ----
+        {
+            // every (separator, description, trailing) layout alone, and every ordered pair of a reduced set
+            let mut layouts: Vec<Vec<(usize, usize, usize)>> = Vec::new();
+            for s in 0..defs::SEPS.len() {
+                for d in 0..(if s == 0 { 1 } else { defs::DESCS.len() }) {
+                    for t in 0..defs::TRAILS.len() {
+                        layouts.push(vec![(s, d, t)]);
+                    }
+                }
+            }
+            let singles = layouts.clone();
+            for a in singles.iter().filter(|l| l[0].1 <= 1 && l[0].2 <= 1) {
+                for b in singles.iter().filter(|l| l[0].1 <= 1 && l[0].2 <= 1) {
+                    layouts.push(vec![a[0], b[0]]);
+                }
+            }
+            let caps = [8192usize, 1, 3];
+            let n = (layouts.len() * 2 * caps.len()) as u64;
+            ctx.sweep(
+                "fasta_foreign_definitions",
+                n,
+                |i| format!("layout {:?} crlf={} cap={}", layouts[i as usize / 6], (i / 3) % 2 == 1, caps[i as usize % 3]),
+                |i| defs::fasta_case(&layouts[i as usize / 6], (i / 3) % 2 == 1, caps[i as usize % 3]),
+            );
+            let nq = (layouts.len() * caps.len()) as u64;
+            ctx.sweep(
+                "fastq_foreign_definitions",
+                nq,
+                |i| format!("layout {:?} cap={}", layouts[i as usize / 3], caps[i as usize % 3]),
+                |i| defs::fastq_case(&layouts[i as usize / 3], caps[i as usize % 3]),
+            );
+            ctx.add_distinct(layouts.len() as u64 * 3, layouts.len() as u64 * 3);
+        }
 
         // ---- sequences of queries on one reader object, every public reader wrapper, files on disk ----
         let tmp = paths::TempDir::new();
